@@ -1114,10 +1114,12 @@ impl<'a> Parser<'a> {
         } else {
             expect_token!(self, Token::Assign, "assignment operator");
 
-            // Parse RHS - single expression or comma-separated tuple
+            // Parse RHS - single expression or comma-separated tuple.  The tuple
+            // spans its items, starting at the first one (a span taken after the
+            // comma would start behind its own end for `{% set x = 1, %}`).
+            let span = self.stream.current_span();
             let expr = ok!(self.parse_expr());
             let expr = if skip_token!(self, Token::Comma) {
-                let span = self.stream.current_span();
                 let mut items = vec![expr];
                 loop {
                     if matches_token!(self, Token::BlockEnd) {
